@@ -4,7 +4,7 @@ from harness import core, impl, model, gen, xmlsx, stages
 TRANSLATORS = ['parser', 'grammar', 'types', 'xml', 'libs']
 LEVEL = 'proof'
 RULE = ('e2e and dict stages (implementation vs extracted Gallina pipeline) on escaped inputs. Oracle: single-line strings over an alphabet of every '
-        'keyword, marker, brace, backslash, dash, dot, pipe and non-ASCII characters, escaped character by character and placed in each text '
+        'keyword, marker, brace, backslash, dash, dot, pipe, non-ASCII characters and invisible format characters (zero-width, BOM, soft hyphen, bidi marks), escaped character by character and placed in each text '
         'position (paragraph, list item, table cell, bullet, heading, subheading, num, crossheading, longtitle, bold/italic/underline, sup, sub, '
         'ref, remark, abbr/def/em/inline/term/ins/del, attachment heading): the text found at that position in the XML must be exactly the '
         'string, with no backslash other than escaped ones. non-trivial = string with >= 2 marker/keyword tokens; distinct by (position, string).')
@@ -17,7 +17,9 @@ ASSUMPTIONS = ['attribute-valued slots (href, src, alt, footnote marker, {attr v
                'line level ("a fully escaped line is one paragraph") and the positions other than a run of inlines are decided by the oracle',
                'an escaped space at the very end of a line is stripped by pre_parse before the grammar sees it (known finding F9)']
 
-ALPHA = gen.ALL_KEYWORDS + gen.INLINE_OPEN + ['a', 'b', 'foo', 'é', 'ש', '\U0001F600', ' ', ' ', '-', ' - ', '.', '|', '{', '}', '(a)', '1.', '\\', '\\\\', '*', '_', '/', 'x y']
+ALPHA = gen.ALL_KEYWORDS + gen.INLINE_OPEN + ['a', 'b', 'foo', 'é', 'ש', '\U0001F600', ' ', ' ', '-', ' - ', '.', '|', '{', '}', '(a)', '1.', '\\', '\\\\', '*', '_', '/', 'x y',
+                                               # characters that do not show: zero-width space/joiners, word joiner, BOM, soft hyphen, bidi marks, a combining accent
+                                               'a\u200bb', '\u200b', '\u2060', '\ufeff', '\u200d', '\u200c', '\u00ad', '\u200f', '\u202e', 'e\u0301']
 
 def rand_string(rng):
     while True:
